@@ -36,6 +36,9 @@ type plCase struct {
 	UDPSize   int            `json:"udpsize"`
 	// OtherUDPSize: receive buffer size of the three other protocols (0 = same as UDPSize); the settings are independent
 	OtherUDPSize int `json:"other_udpsize,omitempty"`
+	// Churn > 0: after every Churn-th datagram of a phase the longest-running worker is told to quit and a new one
+	// is started while traffic flows (the mechanism dynamic-workers uses to shrink and grow the pool)
+	Churn     int            `json:"churn,omitempty"`
 	Filter    []uint32       `json:"filter,omitempty"`
 	Exporters []wire.Hex     `json:"exporters"`
 	Phases    [][]plDatagram `json:"phases"`
@@ -44,12 +47,13 @@ type plCase struct {
 
 const c12Rule = "case = protocol pipeline (ipfix | nf9 | nf5 | sflow), 1..16 real worker goroutines, UDP size (mostly 1500), 1..6 exporters, and phases: announce phases (each template key at most once) " +
 	"alternating with data phases of 20..800 datagrams with strongly mixed sizes (tens of octets next to ~1400) and unique (exporter, sequence number), incl. identical template refreshes, unknown-template, truncated, corrupted, reserved-id, garbage and oversize datagrams; " +
-	"injected exactly as the receive loop does (pooled buffer, copy, send on the real UDP channel), real MQ channel drained concurrently, workers joined per phase; half of the cases run on the -race build of the driver; " +
+	"in half of the cases one or two OTHER protocols' pipelines run at the same time on self-contained cross traffic (own workers, pools, queues; their receive buffer size drawn independently), in a third workers are told to quit and are replaced while traffic flows (every 1st..50th datagram); " +
+	"injected exactly as the receive loop does (pooled buffer, copy, send on the real UDP channel), real MQ channels drained concurrently, workers joined per phase; half of the cases run on the -race build of the driver; " +
 	"oracle = per phase the multiset of published payloads equals, byte for byte, the payloads obtained by decoding each datagram on its own in the harness against a replica cache holding the templates of earlier phases " +
-	"(sFlow: after blanking the collection timestamp); no race report, no crash; DecodedCount delta within [decodes without error, decodes returning a message]; " +
+	"(sFlow: after blanking the collection timestamp), for the pipeline under test and for every cross pipeline; no race report, no crash; DecodedCount delta within [decodes without error, decodes returning a message]; " +
 	"non-trivial = some data phase has more datagrams than workers and datagram sizes differing by > 4x (a worker reuses buffers across sizes); distinct by hash"
 
-const c13Rule = "case = as C12 with phases mixing the four datagram classes (decodable, template-only, undecodable/unknown-template, malformed) and workers 1..16; " +
+const c13Rule = "case = as C12 (incl. cross traffic on other protocols' pipelines and worker churn) with phases mixing the datagram classes (decodable, partly decodable, template-only, undecodable/unknown-template, malformed) and workers 1..16; " +
 	"oracle per phase = published multiset equals { expected payload of d : d yields >= 1 record/sample } with multiplicity exactly 1 (nothing extra, nothing twice, nothing missing, nothing for datagrams not sent); " +
 	"DecodedCount delta within [datagrams decoding without error, datagrams whose decode returns a message] (sFlow: [published, datagrams decoding without error]); " +
 	"non-trivial = a phase mixes >= 3 datagram classes with >= 2 workers; distinct by hash"
@@ -68,6 +72,9 @@ func genPipeline(t *rapid.T, proto string, envs map[string]*wire.GenEnv, maxPhas
 	c.Workers = rapid.OneOf(rapid.IntRange(1, 4), rapid.IntRange(1, 16)).Draw(t, "workers")
 	c.UDPSize = rapid.SampledFrom([]int{1500, 1500, 1500, 1500, 600, 2048, 9000}).Draw(t, "udpsize")
 	c.Race = rapid.Bool().Draw(t, "race")
+	if rapid.IntRange(0, 2).Draw(t, "withchurn") == 0 {
+		c.Churn = rapid.SampledFrom([]int{1, 2, 3, 7, 20, 50}).Draw(t, "churn")
+	}
 	ne := rapid.IntRange(1, 6).Draw(t, "nexp")
 	seen := map[string]bool{}
 	for len(c.Exporters) < ne {
@@ -423,7 +430,7 @@ func runPipeline(prop string, c *plCase) (v verdict, sig string, err error) {
 	if c.Workers < 1 || c.UDPSize < 1 || len(c.Exporters) == 0 {
 		return v, "", fmt.Errorf("bad case")
 	}
-	req := drvRequest{Op: "pipeline", Proto: c.Proto, Workers: c.Workers, UDPSize: c.UDPSize, OtherUDPSize: c.OtherUDPSize, Filter: c.Filter, ResetCache: true}
+	req := drvRequest{Op: "pipeline", Proto: c.Proto, Workers: c.Workers, UDPSize: c.UDPSize, OtherUDPSize: c.OtherUDPSize, Churn: c.Churn, Filter: c.Filter, ResetCache: true}
 	for _, ph := range c.Phases {
 		for _, d := range ph {
 			if d.Exp < 0 || d.Exp >= len(c.Exporters) {
@@ -597,6 +604,7 @@ func runPipeline(prop string, c *plCase) (v verdict, sig string, err error) {
 	v.label(sizeMix, "size-mix")
 	v.label(classMix, "class-mix")
 	v.label(c.OtherUDPSize > 0 && c.OtherUDPSize != c.UDPSize, "independent-udp-sizes")
+	v.label(c.Churn > 0, "worker-churn")
 	if prop == "C13" {
 		v.NT = classMix
 	} else {
